@@ -68,6 +68,10 @@ def worker(job):
                 bump('torn_entry_cases')
                 for v in dagmon.monitor_poison(c, rec):
                     rep['violations'].append(dict(property='C03', what=v, case=c, line=line, real=obs))
+                for v in dagmon.monitor_poison_c02(c, rec):
+                    rep['violations'].append(dict(property='C02', what=v, case=c, line=line, real=obs))
+                if any(c['kids'][int(w)] for w in c['poison']):
+                    bump('torn_entry_of_a_task_with_dependencies')
                 continue
             if obs != m:
                 rep['disagreements'].append(dict(case=c, line=line, real=obs, model=m, diff=first_diff(obs, m)))
@@ -99,6 +103,14 @@ def worker(job):
                 bump('has_failing_task')
             if any(f & 2 for f in c['fl']):
                 bump('has_dying_task')
+            if any(f & 257 == 257 for f in c['fl']):
+                bump('has_task_failing_by_bytes_write_to_stdout')
+            if any(p is not None for p in (c.get('sub') or [])):
+                bump('has_redecorated_subclass_type')
+                if any(p is not None and c['mp'][T] != c['mp'][p] for T, p in enumerate(c['sub'])):
+                    bump('subclass_type_limit_differs_from_parent')
+            if any(r.get('indirect') for r in recs):
+                bump('indirect_result_read_answered_while_still_held')
             if len(c['inst']) > len(set(t for t, _ in c['inst'])):
                 bump('has_duplicate_objects')
             if len(rep['samples']) < 2:
